@@ -31,6 +31,7 @@ theorem isomap_scale_equivariant (δ : Nat → Nat → K) {N : Nat} (hN : 0 < N)
     (sqrtO sqrtO' : K → K) :
     ∃ o o', isomapEmbedModel δ N k true d search disc ch solver sqrtO = .ok o ∧
       isomapEmbedModel (fun a b => c * δ a b) N k true d search disc' ch' solver' sqrtO' = .ok o' ∧
+      (o.V, o.lam) = solver o.B ∧ (o'.V, o'.lam) = solver' o'.B ∧
       o'.found = o.found ∧ (∀ i j, o'.G i j = c * o.G i j) ∧ (∀ i j, o'.B i j = c ^ 2 * o.B i j) ∧
       (IsTopEig (Mat.toM o.B) (Mat.toM o.V) o.lam →
         IsTopEig (Mat.toM o'.B) (Mat.toM o.V) (fun j => c ^ 2 * o.lam j)) ∧
@@ -39,9 +40,9 @@ theorem isomap_scale_equivariant (δ : Nat → Nat → K) {N : Nat} (hN : 0 < N)
         (∀ j, sqrtO' (clamp0 (o'.lam j)) * sqrtO' (clamp0 (o'.lam j)) = clamp0 (o'.lam j)) →
         Mat.toM o'.Y * (Mat.toM o'.Y)ᵀ = c ^ 2 • (Mat.toM o.Y * (Mat.toM o.Y)ᵀ)) := by
   have hw' : ∀ a b, 0 ≤ c * δ a b := fun a b => mul_nonneg hc.le (hw a b)
-  obtain ⟨o, ho, -, ⟨-, hglen, hex⟩, ⟨-, hG⟩, ⟨-, -, hB⟩, ⟨-, hY, -⟩⟩ :=
+  obtain ⟨o, ho, -, ⟨-, hglen, hex⟩, ⟨-, hG⟩, ⟨-, -, hB⟩, ⟨hS, hY, -⟩⟩ :=
     isomap_end_to_end δ hN hk hkN d hw search hlen hexact disc ch solver sqrtO
-  obtain ⟨o', ho', -, -, ⟨-, hG'⟩, ⟨-, -, hB'⟩, ⟨-, hY', -⟩⟩ :=
+  obtain ⟨o', ho', -, -, ⟨-, hG'⟩, ⟨-, -, hB'⟩, ⟨hS', hY', -⟩⟩ :=
     isomap_end_to_end (fun a b => c * δ a b) hN hk hkN d hw' search hlen
       (fun k hk' u hu => isExactKnn_scale hc (hexact k hk' u hu)) disc' ch' solver' sqrtO'
   have hfound : o'.found = o.found := by
@@ -67,7 +68,7 @@ theorem isomap_scale_equivariant (δ : Nat → Nat → K) {N : Nat} (hN : 0 < N)
   have hBM : Mat.toM o'.B = c ^ 2 • Mat.toM o.B := by
     ext i j
     simp only [Mat.toM_apply, Matrix.smul_apply, smul_eq_mul, hBB]
-  refine ⟨o, o', ho, ho', hfound, hGG, hBB, ?_, ?_⟩
+  refine ⟨o, o', ho, ho', hS, hS', hfound, hGG, hBB, ?_, ?_⟩
   · intro htop
     rw [hBM]
     exact C12b.spectralTopEig_scale (c ^ 2) (sq_nonneg c) htop
@@ -103,6 +104,7 @@ theorem isomap_permutation_equivariant {N : Nat} (π : Equiv.Perm (Fin N)) (δ :
     (sqrtO sqrtO' : K → K) :
     ∃ o o', isomapEmbedModel δ N k true d search disc ch solver sqrtO = .ok o ∧
       isomapEmbedModel (fun a b => δ (pOf π a) (pOf π b)) N k true d search' disc' ch' solver' sqrtO' = .ok o' ∧
+      (o.V, o.lam) = solver o.B ∧ (o'.V, o'.lam) = solver' o'.B ∧
       o'.found.k = o.found.k ∧ o'.found.tried = o.found.tried ∧
       o.found.graph = search o.found.k ∧ o'.found.graph = search' o.found.k ∧
       SameEdges (relabel o.found.graph (permList π) (permList π.symm)) o'.found.graph N ∧
@@ -113,9 +115,9 @@ theorem isomap_permutation_equivariant {N : Nat} (π : Equiv.Perm (Fin N)) (δ :
         (∀ j, sqrtO (clamp0 (o.lam j)) * sqrtO (clamp0 (o.lam j)) = clamp0 (o.lam j)) →
         (∀ j, sqrtO' (clamp0 (o'.lam j)) * sqrtO' (clamp0 (o'.lam j)) = clamp0 (o'.lam j)) →
         Mat.toM o'.Y * (Mat.toM o'.Y)ᵀ = (Mat.toM o.Y * (Mat.toM o.Y)ᵀ).submatrix π π) := by
-  obtain ⟨o, ho, ⟨j, hkj, -⟩, -, ⟨-, hG⟩, ⟨-, -, hB⟩, ⟨-, hY, -⟩⟩ :=
+  obtain ⟨o, ho, ⟨j, hkj, -⟩, -, ⟨-, hG⟩, ⟨-, -, hB⟩, ⟨hS, hY, -⟩⟩ :=
     isomap_end_to_end δ hN hk hkN d hw search hlen hexact disc ch solver sqrtO
-  obtain ⟨o', ho', -, -, ⟨-, hG'⟩, ⟨-, -, hB'⟩, ⟨-, hY', -⟩⟩ :=
+  obtain ⟨o', ho', -, -, ⟨-, hG'⟩, ⟨-, -, hB'⟩, ⟨hS', hY', -⟩⟩ :=
     isomap_end_to_end (fun a b => δ (pOf π a) (pOf π b)) hN hk hkN d (fun a b => hw _ _) search' hlen' hexact'
       disc' ch' solver' sqrtO'
   have hp := isPermPair π
@@ -147,7 +149,7 @@ theorem isomap_permutation_equivariant {N : Nat} (π : Equiv.Perm (Fin N)) (δ :
   have hBM : Mat.toM o'.B = (Mat.toM o.B).submatrix π π := by
     ext i j
     simp only [Mat.toM_apply, Matrix.submatrix_apply, hBB]
-  refine ⟨o, o', ho, ho', hk', htr, hg, hg', hse, hGG, hBB, ?_, ?_⟩
+  refine ⟨o, o', ho, ho', hS, hS', hk', htr, hg, hg', hse, hGG, hBB, ?_, ?_⟩
   · intro htop
     rw [hBM]
     exact C12b.spectralTopEig_perm π htop
@@ -162,5 +164,69 @@ theorem isomap_permutation_equivariant {N : Nat} (π : Equiv.Perm (Fin N)) (δ :
       hVM, hlam]
     ext i j
     simp [Matrix.mul_apply, Matrix.submatrix_apply]
+
+/-! ### Non-vacuity
+
+Scale: the four samples of `Props/C04Compose.lean` (`exδN`, one k doubling), `c = 3`; the original run uses the solver
+outcome `(exV, 4)`, `sqrt 4 = 2`, the scaled run the transported outcome `(exV, 36)`, `sqrt 36 = 6`: every hypothesis
+including the solver and `sqrt` contracts on both sides is met, so `Y'·Y'ᵀ = 9·Y·Yᵀ`.
+Permutation: four samples on a line at `0, 1, 3, 7` (tie-free), the transposition `0 ↔ 1`, brute-force search on both
+orderings. -/
+
+def exSolver9 : Mat 4 4 ℚ → Mat 4 1 ℚ × Vec 1 ℚ := fun _ => (C05.exV, fun _ => 36)
+
+example : ∃ o o', isomapEmbedModel exδN 4 1 true 1 (bruteSearch exδN 4) .lazy (fun _ _ => 0) exSolver exSqrt = .ok o ∧
+    isomapEmbedModel (fun a b => 3 * exδN a b) 4 1 true 1 (bruteSearch exδN 4) .indexed (fun _ _ => 1) exSolver9
+      (fun _ => 6) = .ok o' ∧
+    Mat.toM o'.Y * (Mat.toM o'.Y)ᵀ = (3 : ℚ) ^ 2 • (Mat.toM o.Y * (Mat.toM o.Y)ᵀ) := by
+  obtain ⟨o, o', ho, ho', hS, hS', -, -, -, -, hgram⟩ :=
+    isomap_scale_equivariant exδN (N := 4) (by decide) (k := 1) (by decide) (by decide) 1 exδN_nonneg (c := 3)
+      (by norm_num) (bruteSearch exδN 4) (bruteSearch_length exδN 4)
+      (fun k hk => bruteSearch_exact (by decide) exδN_self k hk) .lazy .indexed (fun _ _ => 0) (fun _ _ => 1)
+      exSolver exSolver9 exSqrt (fun _ => 6)
+  have hV' : o'.V = C05.exV := congrArg Prod.fst hS'
+  have hlam' : o'.lam = fun _ => 36 := congrArg Prod.snd hS'
+  have ho2 := ho
+  unfold isomapEmbedModel at ho2
+  simp only [ex_find, ex_allPairs] at ho2
+  injection ho2 with ho2
+  subst ho2
+  have hB : Mat.toM (isomapPre (geoMat exF)) = Mat.toM (mdsPre C05.exδ) :=
+    congrArg Mat.toM (funext fun i => funext fun j => ex_B i j)
+  have htop : IsTopEig (Mat.toM (isomapPre (geoMat exF))) (Mat.toM C05.exV) C05.exLam := by
+    rw [hB]; exact C05.ex_isTopEig
+  refine ⟨_, o', ho, ho', hgram htop hV' (fun j => ?_) (by decide +kernel) (fun j => ?_)⟩
+  · rw [hlam']; show (36 : ℚ) = 3 ^ 2 * C05.exLam j; revert j; decide +kernel
+  · rw [hlam']; revert j; decide +kernel
+
+/-- four samples on a line, all distances from every sample distinct -/
+def exLine (a b : Nat) : ℚ :=
+  ((max (([0, 1, 3, 7] : List Nat).getD a 0) (([0, 1, 3, 7] : List Nat).getD b 0)
+    - min (([0, 1, 3, 7] : List Nat).getD a 0) (([0, 1, 3, 7] : List Nat).getD b 0) : Nat) : ℚ)
+
+theorem exLine_nonneg : ∀ a b, 0 ≤ exLine a b := fun _ _ => Nat.cast_nonneg _
+
+theorem exLine_self (f : Nat → Nat) : ∀ i j, i < 4 → j < 4 → exLine (f i) (f i) ≤ exLine (f i) (f j) := by
+  intro i j _ _
+  have : exLine (f i) (f i) = 0 := by simp [exLine]
+  rw [this]; exact exLine_nonneg _ _
+
+theorem exLine_tieFree : ∀ i, i < 4 → ∀ a ∈ List.range 4, ∀ b ∈ List.range 4, exLine i a = exLine i b → a = b := by
+  decide +kernel
+
+example : ∃ o o', isomapEmbedModel exLine 4 1 true 1 (bruteSearch exLine 4) .lazy (fun _ _ => 0) exSolver exSqrt = .ok o ∧
+    isomapEmbedModel (fun a b => exLine (pOf (Equiv.swap (0 : Fin 4) 1) a) (pOf (Equiv.swap (0 : Fin 4) 1) b)) 4 1 true 1
+      (bruteSearch (fun a b => exLine (pOf (Equiv.swap (0 : Fin 4) 1) a) (pOf (Equiv.swap (0 : Fin 4) 1) b)) 4)
+      .indexed (fun _ _ => 1) exSolver exSqrt = .ok o' ∧
+    o'.found.k = o.found.k ∧ (∀ i j, o'.G i j = o.G (Equiv.swap (0 : Fin 4) 1 i) (Equiv.swap (0 : Fin 4) 1 j)) ∧
+    (∀ i j, o'.B i j = o.B (Equiv.swap (0 : Fin 4) 1 i) (Equiv.swap (0 : Fin 4) 1 j)) := by
+  obtain ⟨o, o', ho, ho', -, -, hk, -, -, -, -, hG, hB, -⟩ :=
+    isomap_permutation_equivariant (Equiv.swap (0 : Fin 4) 1) exLine (by decide) (k := 1) (by decide) (by decide) 1
+      exLine_nonneg exLine_tieFree (bruteSearch exLine 4) _ (bruteSearch_length exLine 4)
+      (fun k hk => bruteSearch_exact (by decide) (exLine_self id) k hk)
+      (bruteSearch_length _ 4)
+      (fun k hk => bruteSearch_exact (by decide) (exLine_self (pOf (Equiv.swap (0 : Fin 4) 1))) k hk)
+      .lazy .indexed (fun _ _ => 0) (fun _ _ => 1) exSolver exSolver exSqrt exSqrt
+  exact ⟨o, o', ho, ho', hk, hG, hB⟩
 
 end TapkeeVerif.EquivCompose
